@@ -163,6 +163,8 @@ static void run_C18(const Args &a, long cs) {
 				rc = splinetable_glamfit(&h.c, &data2, w.data(), cp.data(), ord.data(), kp.data(), nk.data(), lam.data(), por.data(), monodim, false); expect("splinetable_glamfit"); break; }
 			case 15: { // grideval
 				if (!populated || T.get_ncoeffs() > 2000) continue; unsigned nd = T.get_ndim(); std::vector<std::vector<double>> g(nd); for (unsigned d = 0; d < nd; d++) { int np = 1 + (int)r.below(4); const double *k = T.get_knots(d); for (int i = 0; i < np; i++) g[d].push_back(k[0] + (k[T.get_nknots(d) - 1] - k[0]) * r.U()); }
+				// a request that gets refused half-way (more flattened columns than the sparse-matrix code can index): rc != 0, no result, and - at the end of the history - no leak
+				if (nd == 3 && r.coin(0.25)) { for (unsigned d = 0; d < 2; d++) { const double *k = T.get_knots(d); double inside = g[d][0], outside = k[0] - 1.0 - (k[T.get_nknots(d) - 1] - k[0]); g[d].assign(46400, outside); g[d][0] = inside; } g[2].resize(1); hist += "grideval(46400x46400x1);"; count("calls:splinetable_grideval:too-long-for-the-index-type"); }
 				bool wrongcount = false; hist += "grideval;"; phase_log("splinetable_grideval");
 				std::unique_ptr<photospline::ndsparse> n1; try { n1 = T.grideval(g); } catch (std::exception &) { threw = true; }
 				std::vector<const double *> cp; std::vector<uint32_t> nc; for (unsigned d = 0; d < nd; d++) { cp.push_back(g[d].data()); nc.push_back((uint32_t)g[d].size()); } struct ::ndsparse *n2 = nullptr; (void)wrongcount;
